@@ -357,7 +357,7 @@ def run(ctx, proofs):
         ctx.violation("the validator (ssa_check + unversioned_reads_ok + SsaStrict.ssa_strict) accepts a mutated graph that violates C14, or rejects "
                       "its unmutated original (%d of %d witnesses of corpus/C14/rejected)" % (len(wit_bad), len(wit)),
                       {"broken": "strength of the validator on the rejected-graph corpus", "first": wit_bad[0]}, no_input=True)
-    need = [f for f in propeng.FEATURES if f not in ("dimension_with_value_claim_on_a_non_literal", "lookalike_pair_one_constant_one_not")] + list(OWN_FEATURES)
+    need = [f for f in propeng.FEATURES if f not in ("dimension_with_value_claim_on_a_non_literal", "lookalike_pair_one_constant_one_not", "constant_operand_next_to_an_unknown_operand", "zero_base_power_with_unknown_exponent")] + list(OWN_FEATURES)
     missing = [f for f in need if not features.get(f)]
     if missing:
         ctx.violation("degenerate exploration: features named in the rule text were never produced in this run: %s" % ", ".join(missing),
